@@ -19,7 +19,7 @@ def run(rep, tier, seed):
         for i, line in enumerate(f):
             if i in (30, 5000):
                 rep.sample(json.loads(line))
-    replay_vectors(rep, exe, "replay-C20", vec)
+    replay_vectors(rep, exe, "replay-C20", vec, shards=4)
     rep.exhaustive = True
 
 def replay(path):
